@@ -91,6 +91,10 @@ func genDoc() *dDoc {
 	}
 	if zzverif.Param("MODULES", 0) == 1 && zzverif.Choose("header", 2) == 1 {
 		d.module = "m"
+		if zzverif.Param("MODNAMES", 0) == 1 {
+			// ordinary names and every keyword the grammar admits as an identifier
+			d.module = []string{"m", "core-1", "model", "schema", "type", "relation", "module", "extend"}[zzverif.Choose("module-name", 8)]
+		}
 	}
 	d.types = append(d.types, dType{name: "user"})
 	g := &exprGen{budget: zzverif.Param("NODES", 4)}
